@@ -1,6 +1,6 @@
 (* C13 -- A module can be printed from many goroutines at once. *)
 From Coq Require Import List Bool Arith ZArith String.
-From LLIR Require Gen.Ctors Proofs.CtorProofs.
+From LLIR Require Gen.Ctors Proofs.CtorProofs Proofs.ParserCacheProofs.
 From LLIR Require Import Model.Concurrency Gen.Locks Gen.Printers Proofs.ConcurrencyProofs Proofs.GenTables Proofs.ObserverProofs Proofs.CacheProofs.
 Import ListNotations.
 
@@ -62,11 +62,21 @@ Proof. exact id_passes_called_from. Qed.
 
 (* the caches are filled before any observer runs: every New* constructor of a type with a lazily filled Typ
    cache (60 types, 61 constructors, regenerated tables) calls Type() on the new object; the parser's own
-   constructions (the asm.newXInst functions) either set Typ from the text or call Type() -- observed by the race runs and the
-   object-dump leg, not part of this statement *)
+   constructions are the two statements after these *)
 Theorem C13_constructors_fill_type_caches :
   forallb (fun c => negb (caches c) || CtorProofs.mem "Type" (Ctors.c_calls c)) Ctors.ctors = true.
 Proof. exact constructors_fill_type_caches. Qed.
 Theorem C13_caching_types_have_constructors :
   forallb (fun tm => existsb (fun c => String.eqb (fst tm) (ctor_target c)) Ctors.ctors) caching_observers = true.
 Proof. exact caching_types_have_constructors. Qed.
+
+(* the parser: over all 350 regenerated bodies of package asm, every composite literal of a type with such a cache
+   either carries its Typ field, or the body that creates it calls Type() or assigns Typ before returning; and
+   every one of the 60 caching types is created by the parser in one of the two covered ways (a literal, 41 types,
+   or a New* constructor, 38 types), so no object with an empty cache leaves the parser *)
+Theorem C13_parser_fills_type_caches : ParserCacheProofs.unfilled = [].
+Proof. exact ParserCacheProofs.parser_fills_type_caches. Qed.
+Theorem C13_parser_creates_every_caching_type : ParserCacheProofs.not_created_by_parser = [].
+Proof. exact ParserCacheProofs.parser_creates_every_caching_type. Qed.
+Print Assumptions C13_parser_fills_type_caches.
+Print Assumptions C13_parser_creates_every_caching_type.
